@@ -17,6 +17,7 @@ var WPlusKinds = []string{
 	"dangling-pointer",                   // unresolvable
 	"dangling-pointer-to-absent-keyword", // unresolvable
 	"dangling-ref-in-simple-items",       // unresolvable
+	"dangling-shared-object-ref",         // unresolvable: parameter / response / path item $ref
 	"back-reference-to-root",
 	"pointer-to-operation-schema",
 	"pointer-to-nested-inline",
@@ -25,6 +26,7 @@ var WPlusKinds = []string{
 	"pointer-cycle-through-items",
 	"self-pointer",
 	"colliding-import-with-refs",
+	"colliding-imports-referring-to-each-other",
 	"ref-in-simple-items",
 	"whole-document-schema-ref",
 	"bare-ref-cycle",
@@ -33,7 +35,7 @@ var WPlusKinds = []string{
 
 func Unresolvable(kind string) bool {
 	switch kind {
-	case "dangling-local-definition", "dangling-remote-file", "dangling-remote-fragment", "dangling-pointer", "dangling-pointer-to-absent-keyword", "dangling-ref-in-simple-items":
+	case "dangling-local-definition", "dangling-remote-file", "dangling-remote-fragment", "dangling-pointer", "dangling-pointer-to-absent-keyword", "dangling-ref-in-simple-items", "dangling-shared-object-ref":
 		return true
 	}
 	return false
@@ -161,6 +163,37 @@ func GenWPlusCase(d *D, cfg BundleCfg, allowed []string) *WPlusCase {
 				"leaf":  O{"type": "integer"},
 			}}
 			holderPath(root, i, O{"$ref": "other/clash.json#/definitions/clash"})
+		case "colliding-imports-referring-to-each-other":
+			defs := ensureDefs(root)
+			defs["mutA"] = O{"type": "object", "properties": O{"local": O{"type": "string"}}}
+			defs["mutB"] = O{"type": "integer"}
+			c.Aux["other/mut.json"] = O{"definitions": O{
+				"mutA": O{"type": "object", "properties": O{"b": O{"$ref": "#/definitions/mutB"}}},
+				"mutB": O{"type": "object", "properties": O{"a": O{"$ref": "#/definitions/mutA"}}},
+			}}
+			holderPath(root, i, O{"$ref": "other/mut.json#/definitions/mutA"})
+			if d.Bool() {
+				defs["mutHolder"] = O{"type": "array", "items": O{"$ref": "other/mut.json#/definitions/mutB"}}
+			}
+		case "dangling-shared-object-ref":
+			paths := Obj(root["paths"])
+			if paths == nil {
+				paths = O{}
+				root["paths"] = paths
+			}
+			key := fmt.Sprintf("/wplus%d", i)
+			switch d.Int(0, 4) {
+			case 0:
+				paths[key] = O{"get": O{"parameters": A{O{"$ref": "#/parameters/missing"}}, "responses": O{"200": O{"description": "w"}}}}
+			case 1:
+				paths[key] = O{"get": O{"responses": O{"200": O{"$ref": "#/responses/missing"}}}}
+			case 2:
+				paths[key] = O{"parameters": A{O{"$ref": "gone.json#/parameters/p"}}, "get": O{"responses": O{"200": O{"description": "w"}}}}
+			case 3:
+				paths[key] = O{"$ref": "gone.json#/pathItems/pi"}
+			default:
+				paths[key] = O{"get": O{"responses": O{"default": O{"$ref": "gone.json#/responses/r"}}}}
+			}
 		case "ref-in-simple-items":
 			paths := Obj(root["paths"])
 			if paths == nil {
